@@ -18,7 +18,7 @@ def write_if_changed(path, text):
     open(tmp, "w").write(text)
     os.replace(tmp, path)
 
-PER = 8
+PER = 24
 TOK = {
     "+": "T::Add", "-": "T::Sub", "*": "T::Mul", "/": "T::Div", "%": "T::Mod", "@": "T::Align", "^": "T::Deref",
     ".cfa": "T::Cfa", ".undef": "T::Undef", "$rax": "T::Rax", "rbx": "T::Rbx",
